@@ -64,6 +64,14 @@ var gcOffArg bool
 func evalRun(p *Plan, run int, trace, cover bool) (*runResult, []Violation) {
 	res := runPlan(p, trace, cover)
 	viol := res.Viol
+	if res.AbortWhy != "" {
+		// The run was unwound: deferred calls of the library were skipped, its
+		// package state (a semaphore's slots, a lock) may be inconsistent. What
+		// the run itself observed stands (a deadlock, a dead goroutine; nothing
+		// at all for a limit of the simulator); evaluating operations "alone"
+		// in this world now would only describe the wreck.
+		return res, viol
+	}
 	if p.Prop == "C14" {
 		viol = append(viol, checkO1(res, run)...)
 		persistAdd(res, run)
